@@ -690,6 +690,8 @@ def stat_scenario(verif_seed, j, tier):
     if rnd.random() < 0.6:
         spec["nb_easy_pos"] = rnd.randint(0, npos // 2)
         spec["nb_easy_neg"] = rnd.randint(nneg // 2, nneg)
+        if rnd.random() < 0.4:
+            spec[rnd.choice(["nb_easy_pos", "nb_easy_neg"])] = rnd.randint(1, 3)  # a very small easy stratum next to many scored samples
     cfg = {"sampling_method": method, "stratified_sampling": strat, "smoothing": smoothing}
     if method == "proportion":
         cfg["ratio"] = rnd.choice([0.02, 0.04, 0.06]) if sparse else rnd.choice([0.1, 0.25, 0.5, 0.8])
@@ -771,6 +773,19 @@ def execute_stat(scn, ctx):
         ok, m, tol = ST.mean_test(win, np.full(4, half), 2 * half)
         m = m - half + src_sizes
         n_tests += 4
+        # the same test with a window per stratum, +-(8 sqrt(2 m) + 16) around its own size m: a small stratum (one or two
+        # easy samples next to many scored ones) has a spread of about 1, not sqrt(N); the common window above would
+        # drown a shift of a third of a sample in its range term.  Leaving this window has probability < 1e-14 as well.
+        half_c = 8.0 * np.sqrt(2.0 * np.maximum(src_sizes, 1.0)) + 16.0
+        for c_ in range(4):
+            win_c = (np.clip(sizes[:, c_] - src_sizes[c_], -half_c[c_], half_c[c_]) + half_c[c_])[:, None]
+            ok_c, m_c, tol_c = ST.mean_test(win_c, np.full(1, half_c[c_]), 2 * half_c[c_])
+            n_tests += 1
+            if not ok_c.all() and ok.all():
+                ok = ok.copy()
+                ok[c_] = False
+                m[c_] = m_c[0] - half_c[c_] + src_sizes[c_]
+                tol[c_] = tol_c[0]
         if not ok.all():
             w = int(np.argmin(ok))
             viol.append({"invariant": "C11.unbiased_sizes", "tags": tags,
